@@ -32,9 +32,34 @@ macro "chan_elim" : tactic => `(tactic| first
   | (apply recordTx_elim; intro _ _ _ _ _ _)
   | (apply advanceOut_elim; intro _ _ _ _ _ _))
 
+/- `chan_freeze_lets`: turn every `let` variable of the context whose type is not `St` into an ordinary variable `x`
+   with a hypothesis `x = value` (so that `split` can case on it) -/
+open Lean Elab Tactic Meta in
+elab "chan_freeze_lets" : tactic => do
+  let mut g ← getMainGoal
+  let mut progress := false
+  let mut skip : Nat := 0
+  repeat
+    let lctx := (← g.getDecl).lctx
+    let cands := lctx.foldl (init := #[]) fun acc d =>
+      if d.isLet && !d.type.isConstOf ``St && !d.isImplementationDetail then acc.push d else acc
+    if h : skip < cands.size then
+      let decl := cands[skip]
+      let (eqTy, eqPf) ← g.withContext do
+        let fv := decl.toExpr
+        pure (← mkEq fv decl.value, ← mkEqRefl fv)
+      let g1 ← g.assert (decl.userName.appendAfter "_def") eqTy eqPf
+      let (_, g2) ← g1.intro1P
+      match ← observing? (g2.clearValue decl.fvarId) with
+      | some g3 => g := g3; progress := true
+      | none => skip := skip + 1
+    else break
+  unless progress do throwError "no let variable to freeze"
+  replaceMainGoal [g]
+
 /-- split a procedure body into its paths; `let`s are moved into the context as they come to the top, so the terms
     stay small -/
-macro "chan_paths" : tactic => `(tactic| repeat' (first | extract_lets | split))
+macro "chan_paths" : tactic => `(tactic| repeat' (first | extract_lets | split | (chan_freeze_lets; split)))
 
 open Lean Elab Tactic Meta in
 /-- the goal is `P x` with `x` a `let` variable of the context: replace `x` by its value (one step) -/
@@ -51,8 +76,16 @@ elab "unfold_state_let" : tactic => do
       | none => throwError "not a let variable"
     | _ => throwError "the state is not a variable"
 
+/-- the induction hypothesis of `exec_induct` for an invariant: every call the body makes preserves it -/
+@[reducible] def GoInv (I : St → Prop) (go : Call → St → St × Ret) : Prop := ∀ c s, I s → I (go c s).1
+
 /-- a predicate carried across a pair destructured by `split` -/
-theorem pair_fst {I : St → Prop} {e : St × Ret} {s1 : St} {r : Ret} (heq : e = (s1, r)) (h : I e.1) : I s1 := by
+theorem pair_fst {β : Type} {I : St → Prop} {e : St × β} {s1 : St} {r : β} (heq : e = (s1, r)) (h : I e.1) :
+    I s1 := by
+  subst heq; exact h
+
+theorem pair_snd {α : Type} {I : St → Prop} {e : α × St} {s1 : St} {a : α} (heq : e = (a, s1)) (h : I e.2) :
+    I s1 := by
   subst heq; exact h
 
 open Lean Elab Tactic Meta in
@@ -159,13 +192,14 @@ macro "frame_congr" : tactic => `(tactic| (
 /-- one backward step of a leaf proof `I (… helpers … (go c (…)).1 …)`:
     `spec` = the lemmas of the invariant for the helpers that matter to it (and the generated ones for plain updates),
     `congr` = strip a structure update the invariant does not read -/
-macro "chan_step " hgo:term ", " spec:tactic ", " congr:tactic : tactic => `(tactic| first
+macro "chan_step " hgo:term ", " spec:tacticSeq ", " congr:tacticSeq : tactic => `(tactic| first
   | assumption
   | with_reducible apply $hgo
   | (with_reducible apply pair_fst; assumption)
-  | $spec
+  | (with_reducible apply pair_snd; assumption)
+  | ($spec)
   | with_reducible chan_elim
-  | $congr
+  | ($congr)
   | unfold_state_let
   | split)
 
@@ -183,5 +217,90 @@ macro "frame_spec" : tactic => `(tactic| first
 macro "frame_step" hgo:term : tactic => `(tactic| chan_step $hgo, frame_spec, frame_congr)
 
 macro "frame_leaf" hgo:term : tactic => `(tactic| repeat' (frame_step $hgo))
+
+end Cares.Chan
+
+namespace Cares.Chan
+
+/-- `List.foldl` of an invariant-preserving step -/
+theorem foldl_inv {α : Type} {I : St → Prop} (f : St → α → St) (hf : ∀ s a, I s → I (f s a)) (l : List α) (s : St)
+    (h : I s) : I (l.foldl f s) := by
+  induction l generalizing s with
+  | nil => exact h
+  | cons a r ih => exact ih _ (hf s a h)
+
+open Lean in
+/-- Generate, for an invariant `I` (a term of type `St → Prop`), the preservation lemma of every procedure body
+    (`bodyXxx_<sfx>`), of `execBody` and of `exec`.  `leaf` is the tactic run on every path of a body (it may refer to
+    `hgo : GoInv I go` and `h : I s`); bodies listed after `except` are expected to have been proved by hand under
+    the same names.  `hoof` proves `∀ s, I s → I s.oof.1`. -/
+macro "chan_invariant " sfx:ident " : " I:term " oof " hoof:term " leaf " leaf:tacticSeq " except " ex:ident* : command => do
+  let sfxS := sfx.getId.toString
+  let nm (b : String) : Ident := mkIdent (Name.mkSimple (b ++ "_" ++ sfxS))
+  let hgo := mkIdent `hgo
+  let h := mkIdent `h
+  let go := mkIdent `go
+  let s := mkIdent `s
+  let skip (b : String) : Bool := ex.any (fun i => i.getId.toString == b)
+  let mut cmds : Array (TSyntax `command) := #[]
+  -- (name, explicit argument binders as identifiers)
+  let bodies : List (String × List String) := [
+    ("sqChoose", []), ("sqOpen", []), ("sqPrep", []), ("sqWrite", []), ("sqDeadline", []), ("sqCommit", []),
+    ("sqAfter", []), ("sendQueryBlocks", []),
+    ("bodySendNolock", ["a1", "a2", "a3", "a4", "a5", "a6"]), ("bodySendQuery", ["a1", "a2"]),
+    ("bodyProbe", ["a1", "a2"]), ("bodyFlush", ["a1"]), ("bodyRequeue", ["a1", "a2", "a3", "a4", "a5"]),
+    ("bodyEndQuery", ["a1", "a2", "a3", "a4"]), ("bodyCallback", ["a1", "a2", "a3", "a4", "a5"]),
+    ("bodyUserCb", ["a1", "a2", "a3", "a4", "a5"]), ("bodyReactions", ["a1"]),
+    ("bodyConnError", ["a1", "a2", "a3"]), ("bodyCloseConn", ["a1", "a2"]), ("bodyCloseLoop", ["a1", "a2"]),
+    ("bodyProcessWrite", ["a1"]), ("bodyProcessRead", ["a1"]), ("bodyReadAnswers", ["a1"]),
+    ("bodyFlushRequeue", []), ("bodyProcessAnswer", ["a1", "a2"]), ("bodyProcessTimeouts", []),
+    ("bodyCleanupConns", ["a1"]), ("bodyClientStart", ["a1", "a2", "a3", "a4", "a5"]), ("bodyRunActs", ["a1", "a2"]),
+    ("bodyCancel", []), ("bodyCancelLoop", ["a1", "a2"]), ("bodyDestroy", [])]
+  for (b, args) in bodies do
+    if skip b then continue
+    let bid := mkIdent (Name.mkSimple b)
+    let c ← match b with
+      | "sqChoose" => `(theorem $(nm b) {$go : Call → St → St × Ret} ($hgo : GoInv $I $go) (a1 : Option Nat) ($s : St)
+            ($h : $I $s) : $I (sqChoose a1 $s).2 := by unfold sqChoose; chan_paths; all_goals ($leaf))
+      | "sqOpen" => `(theorem $(nm b) {$go : Call → St → St × Ret} ($hgo : GoInv $I $go) ($s : St) (a1 : Query)
+            (a2 : Server) (a3 : Option Nat) ($h : $I $s) : $I (sqOpen $s a1 a2 a3).2 := by
+              unfold sqOpen; chan_paths; all_goals ($leaf))
+      | "sqPrep" => `(theorem $(nm b) {$go : Call → St → St × Ret} ($hgo : GoInv $I $go) ($s : St) (a1 : Query)
+            (a2 : Server) (a3 a4 : Nat) ($h : $I $s) : $I (sqPrep $s a1 a2 a3 a4) := by
+              unfold sqPrep; chan_paths; all_goals ($leaf))
+      | "sqWrite" => `(theorem $(nm b) {$go : Call → St → St × Ret} ($hgo : GoInv $I $go) ($s : St) (a1 : Nat)
+            ($h : $I $s) : $I (sqWrite $go $s a1).2 := by unfold sqWrite; chan_paths; all_goals ($leaf))
+      | "sqDeadline" => `(theorem $(nm b) {$go : Call → St → St × Ret} ($hgo : GoInv $I $go) ($s : St) (a1 : Server)
+            (a2 : Nat) ($h : $I $s) : $I (sqDeadline $s a1 a2).2 := by unfold sqDeadline; chan_paths; all_goals ($leaf))
+      | "sqCommit" => `(theorem $(nm b) {$go : Call → St → St × Ret} ($hgo : GoInv $I $go) ($s : St) (a1 : Query)
+            (a2 a3 : Nat) (a4 : Deadline) ($h : $I $s) : $I (sqCommit $s a1 a2 a3 a4) := by
+              unfold sqCommit; chan_paths; all_goals ($leaf))
+      | "sqAfter" => `(theorem $(nm b) {$go : Call → St → St × Ret} ($hgo : GoInv $I $go) (a1 : Query) (a2 : Server)
+            (a3 a4 : Nat) (a5 : Bool) (a6 : Status) ($s : St) ($h : $I $s) : $I (sqAfter $go a1 a2 a3 a4 a5 a6 $s).1 := by
+              unfold sqAfter; chan_paths; all_goals ($leaf))
+      | "sendQueryBlocks" => `(theorem $(nm b) {$go : Call → St → St × Ret} ($hgo : GoInv $I $go) (a1 : Option Nat)
+            (a2 : Nat) ($s : St) ($h : $I $s) : $I (sendQueryBlocks $go a1 a2 $s).1 := by
+              unfold sendQueryBlocks; chan_paths; all_goals ($leaf))
+      | "bodySendQuery" => `(theorem $(nm b) {$go : Call → St → St × Ret} ($hgo : GoInv $I $go) (a1 : Option Nat)
+            (a2 : Nat) ($s : St) ($h : $I $s) : $I (bodySendQuery $go a1 a2 $s).1 := by
+              rw [bodySendQuery_eq]; exact $(nm "sendQueryBlocks") $hgo a1 a2 $s $h)
+      | _ =>
+        let argIds : Array Ident := (args.map fun a => mkIdent (Name.mkSimple a)).toArray
+        `(theorem $(nm b) {$go : Call → St → St × Ret} ($hgo : GoInv $I $go) $argIds* ($s : St) ($h : $I $s) :
+            $I ($bid $go $argIds* $s).1 := by unfold $bid:ident; chan_paths; all_goals ($leaf))
+    cmds := cmds.push c
+  -- execBody and exec
+  let alts : Array (TSyntax `Lean.Parser.Tactic.tacticSeq) ←
+    (bodies.filter (fun p => p.1.startsWith "body")).toArray.mapM fun (b, _) =>
+      `(tacticSeq| apply $(nm b) $hgo; exact $h)
+  let c ← `(theorem $(nm "execBody") {$go : Call → St → St × Ret} ($hgo : GoInv $I $go) (c : Call) ($s : St)
+      ($h : $I $s) : $I (execBody $go c $s).1 := by
+        cases c <;> (unfold execBody; dsimp only; first $[| $alts]*))
+  cmds := cmds.push c
+  let c ← `(theorem $(nm "exec") (fuel : Nat) (c : Call) ($s : St) ($h : $I $s) : $I (exec fuel c $s).1 :=
+      exec_induct (P := fun _ s r => $I s → $I r.1) (fun _ s h => $hoof s h)
+        (fun _ hgo c s h => $(nm "execBody") hgo c s h) fuel c $s $h)
+  cmds := cmds.push c
+  return ⟨mkNullNode cmds⟩
 
 end Cares.Chan
